@@ -211,7 +211,7 @@ def run_part(unit_dir, tag, tier, want_neg, part):
         d2, e2 = _repairs(b, run)
         new_drop = d2 - drop
         new_extra = [e for e in e2 if e not in extra]
-        if not infra or (not new_drop and not new_extra):
+        if not infra or (not new_drop and not new_extra) or os.environ.get("VERIF_NO_REPAIR"):
             break
         drop |= new_drop
         extra += new_extra
